@@ -284,7 +284,8 @@ def same_name(ex, a, b):
 
 
 def expected_names(ex, cfg, w):
-    d = '/data/ch/'
+    from .wobj import CHDIR
+    d = CHDIR + '/'
     tmp = SymStr([d, ('d', w['DIR'], 'cal'), '/', 'tmp.rf@', ('d', w['FS'], 'u'), '.', ('d', w['FMS'], 'u03'), '.h5']).norm()
     fin = SymStr([d, ('d', w['DIR'], 'cal'), '/', 'rf@', ('d', w['FS'], 'u'), '.', ('d', w['FMS'], 'u03'), '.h5']).norm()
     return tmp, fin
@@ -432,7 +433,7 @@ def check_path(ex, cfg, status, ret, agg):
                 check_claim(ex, agg, 'last file / last directory written name the file containing the most recently written sample',
                             z3.And(e1 if not isinstance(e1, bool) else z3.BoolVal(e1), wlast['c1'] <= lastabs, lastabs < wlast['c2'],
                                    z3.BoolVal(isinstance(ld, SymStr) and envstubs.strid(ld.copy().norm()) ==
-                                              envstubs.strid(SymStr(['/data/ch/', ('d', wlast['DIR'], 'cal'), '/']).norm()))))
+                                              envstubs.strid(SymStr([__import__('vlib.wobj', fromlist=['CHDIR']).CHDIR + '/', ('d', wlast['DIR'], 'cal'), '/']).norm()))))
             else:
                 agg.note('last file / last directory written name the file containing the most recently written sample', False, path_model(ex))
     # E: every file: well-formed index, within its window (checked on the final state of the path)
